@@ -1,6 +1,7 @@
 package gqlerrors
 
 import (
+	"errors"
 	"strings"
 
 	"github.com/samber/lo"
@@ -68,6 +69,10 @@ func FormatError(err error) ErrorList {
 		for _, innerErr := range e {
 			list = append(list, FormatError(innerErr)...)
 		}
+		// an error which names nothing is an error still
+		if len(list) == 0 {
+			return ErrorList{NewError(UndefinedError, errors.New("unknown error"))}
+		}
 		return list
 	case *Error:
 		return ErrorList{e}
@@ -94,6 +99,9 @@ func FormatError(err error) ErrorList {
 		var list ErrorList
 		for _, innerErr := range e {
 			list = append(list, FormatError(innerErr)...)
+		}
+		if len(list) == 0 {
+			return ErrorList{NewError(UndefinedError, errors.New("unknown error"))}
 		}
 		return list
 	default:
